@@ -35,13 +35,14 @@ func Transact(db *gorm.DB, fnList ...GormProcFn) (err error) {
 		return
 	}
 
+	// finished stays false when a step panics, whatever value it panics with:
+	// recover() returns nil for panic(nil) when the main module's go version is < 1.21.
+	var finished bool
 	defer func() {
-		if err == nil {
+		if err == nil && !finished {
 			var catch = recover()
-			if catch != nil {
-				ulog.Error("db.transaction.panic.error", zap.Stack("stack"))
-				err = fmt.Errorf("db.transaction.panic:%+v", catch)
-			}
+			ulog.Error("db.transaction.panic.error", zap.Stack("stack"))
+			err = fmt.Errorf("db.transaction.panic:%+v", catch)
 		}
 
 		if err != nil {
@@ -59,6 +60,6 @@ func Transact(db *gorm.DB, fnList ...GormProcFn) (err error) {
 			return
 		}
 	}
-
+	finished = true
 	return
 }
